@@ -1,4 +1,5 @@
 mod fw;
+mod gen;
 mod props;
 
 use fw::*;
